@@ -25,6 +25,11 @@ RENDERERS = {
     'pygments': ('mistletoe.contrib.pygments_renderer', 'PygmentsRenderer', {}),
     'jira': ('mistletoe.contrib.jira_renderer', 'JiraRenderer', {}),
     'xwiki': ('mistletoe.contrib.xwiki20_renderer', 'XWiki20Renderer', {}),
+    # the same classes with other options: what one instance was given must not be seen by the next
+    'pygments_monokai': ('mistletoe.contrib.pygments_renderer', 'PygmentsRenderer', {'style': 'monokai'}),
+    'html_quotes': ('mistletoe.html_renderer', 'HtmlRenderer', {'html_escape_double_quotes': True, 'html_escape_single_quotes': True}),
+    'markdown_wrapped': ('mistletoe.markdown_renderer', 'MarkdownRenderer', {'max_line_length': 20, 'normalize_whitespace': True}),
+    'toc_shallow': ('mistletoe.contrib.toc_renderer', 'TocRenderer', {'depth': 1, 'omit_title': False}),
 }
 PROBES = ['hello world\n', '# h #\n\ntext\n', '```py\ncode\n```\n', '<div>\nx\n</div>\n\ny\n', '> q\n> r\n\nfoo\n===\n', 'x `code` **a**b* y\n',
           'a\n===\n\nb\n---\n', '| a |\n| - |\n| b |\n', '[x]: /u "t"\n\n[x] and [y]\n', '- a\n\n  b\n- c\n1. d\n', '    indented\n\n<!-- c -->\n',
@@ -193,6 +198,11 @@ def run(ctx, only=None):
                     n2 = second[(pos + kth) % len(second)]
                     hs.append([('session', n1, [('raise', RAISE_DOCS[pos % 2], in_span, pos, kth)]),
                                ('session', n2, [('render', p) for p in PROBES]), ('bare', PROBES[4])])
+    # systematic: the same renderer class with two option sets, one after the other and back (what an instance was given must die with it)
+    for na, nb in [('pygments_monokai', 'pygments'), ('html_quotes', 'html'), ('markdown_wrapped', 'markdown'), ('toc_shallow', 'toc'), ('html_nohtml', 'html')]:
+        for first, then in ((na, nb), (nb, na)):
+            hs.append([('session', first, [('render', p) for p in PROBES]), ('session', then, [('render', p) for p in PROBES]),
+                       ('session', first, [('render', p) for p in PROBES])])
     for _ in range(400 if ctx.quick() else 10000):
         hs.append(gen_history(rng, 4 if ctx.quick() else 6))
     with mp.Pool(core.NPROC, maxtasksperchild=20) as pool:
